@@ -2,7 +2,7 @@
   Drv/Hyps.lean — line-protocol request evaluating the theorems' hypotheses on the session grammar:
 
     HY <which>        which = g (the grammar last sent with `G`) | og (its optimized form, after `O`)
-      -> "wf=<b> closed=<b> shape=<b> skip=<b> eoi=<b>"     b = 1 | 0
+      -> "wf=<b> closed=<b> shape=<b> skip=<b> eoi=<b> soifree=<b>"     b = 1 | 0
 
   `wf` is `WF.wellFormed` (hypothesis of the termination theorems C07.parse_terminates / parse_total),
   `closed`/`shape`/`skip`/`eoi` are `closedB`/`genShapeB`/`skipTotalB`/`onlyEOIB` (hypotheses of
@@ -20,7 +20,7 @@ namespace Drv
 def bit (b : Bool) : String := if b then "1" else "0"
 
 def encHyps (g : Grammar) : String :=
-  s!"wf={bit (WF.wellFormed g)} closed={bit (C07.closedB g)} shape={bit (C07.genShapeB g)} skip={bit (C07.skipTotalB g)} eoi={bit (C07.onlyEOIB g)}"
+  s!"wf={bit (WF.wellFormed g)} closed={bit (C07.closedB g)} shape={bit (C07.genShapeB g)} skip={bit (C07.skipTotalB g)} eoi={bit (C07.onlyEOIB g)} soifree={bit (soiFreeG g)}"
 
 def handleHyps (s : Session) : Toks → Option String
   | ["HY", "g"] => some (encHyps { s.g with usets := s.usets })
